@@ -723,6 +723,58 @@ def rule_eq_derived(repo, adts):
     return R.finish()
 
 
+# ====================================================================== R-EQ-READS
+def _places(o, out):
+    if isinstance(o, dict):
+        if "l" in o and "p" in o and isinstance(o.get("p"), list):
+            out.append(o)
+        for v in o.values():
+            _places(v, out)
+    elif isinstance(o, list):
+        for v in o:
+            _places(v, out)
+    return out
+
+
+def rule_eq_reads(prop, repo, adts):
+    """necessary condition for value equality of a hand-written `==`: a comparison that never reads some field of one of its operands
+    cannot separate two values that differ in that field only.  Decided on the MIR places of the eq body: each (operand, field) must
+    occur as a projection of the operand, unless the operand is handed on as a whole (then the reader is elsewhere: not judged)."""
+    F = repo.F
+    R = Rule("R-EQ-READS", "a hand-written `==` reads every field of both operands (a field it ignores is a pair of different values it calls equal)", floor=len(adts))
+    for ap in adts:
+        imps = [i for i in F.impls if i.get("self_adt") == ap and i.get("trait") == "core::cmp::PartialEq" and i["self_ty"].split("<")[0] == ap]
+        if not imps:
+            R.instance()
+            R.fail_closed("%s:eq-reads:%s:missing" % (prop, ap), "no PartialEq impl for %s" % ap)
+            continue
+        for imp in imps:
+            R.instance()
+            if imp["derived"]:
+                R.ok(sample={"type": ap, "impl": "derive(PartialEq)"})
+                continue
+            fields = F.adts[ap]["variants"][0]["fields"] if ap in F.adts else []
+            bs = [F.bodies.get(q) for q in imp["items"] if q.endswith("::eq")]
+            bs = [b for b in bs if b is not None]
+            if not bs or not fields:
+                R.fail_closed("%s:eq-reads:%s:anchor" % (prop, ap), "eq body or field list of %s not found" % ap)
+                continue
+            b = bs[0]
+            read, whole = set(), set()
+            for pl in _places(b.rec["mir"]["blocks"], []):
+                if pl["l"] not in (1, 2):
+                    continue
+                proj = [x for x in pl["p"] if x != "deref"]
+                if proj and isinstance(proj[0], dict) and "f" in proj[0]:
+                    read.add((pl["l"], proj[0]["f"]))
+                elif not proj:
+                    whole.add(pl["l"])
+            missing = [("self" if o == 1 else "other", fields[k]["name"]) for o in (1, 2) for k in range(len(fields)) if (o, k) not in read and o not in whole]
+            R.check(not missing, "%s:eq-reads:%s" % (prop, ap), "== of %s never reads %s" % (ap, ", ".join("%s.%s" % m for m in missing)), b.file_line(), b.rec["path"],
+                    sample={"type": ap, "fields_read_of_each_operand": [f["name"] for f in fields]})
+    return R.finish()
+
+
 # ====================================================================== R-ENCAPS
 def rule_encaps(repo):
     F = repo.F
